@@ -45,26 +45,25 @@ ASSUMPTIONS = [
     "generated grammar",
 ]
 STATEMENT_STATUS = {
-    "C01_int_token": "proved (+ _eof, _buffered): every spelling [+-]?d+ (<= 4300 digits) followed by any non-digit "
-                     "lexes to its value at its position, at every buffer size",
-    "C01_name_token": "proved (+ _eof, _buffered): / + raw regular bytes and #xx escapes (either case), followed by "
-                      "white space or a delimiter, lexes to the name's bytes",
-    "C01_hex_statement": "full statement; FALSE on the pinned code (C01_hex_statement_fails, C01_odd_hex_cex): odd "
-                         "digit count, open finding odd-hex-digit",
-    "C01_hex_token_partial": "proved for an even digit count, either case, white space incl. NUL anywhere "
-                             "(+ _eof_partial, C01_hex_then)",
-    "C01_string_token": "proved (+ _eof, _buffered): Table 3 escapes, 1-3 digit octal with overflow ignored, "
-                        "backslash LF/CR/CRLF continuations, ignored backslash, raw balanced parentheses of any depth",
-    "C01_nesting": "proved on token sequences for trees of any depth: the stack parser (PSStackParser.nextobject + "
-                   "PDFStreamParser) rebuilds the tree, null-valued dictionary entries absent",
-    "C01_tokens / C01_roundtrip_partial / C01_roundtrip_buffered_partial / C01_offset_partial":
-        "proved END TO END for spelled trees (STree) of any depth: every token-level freedom (integer/real forms, "
-        "#xx, all string escapes/octal/continuations/nested parentheses, hex case + inner white space, any run of "
-        "white space incl. NUL between tokens), any buffer size, any white-space padding in front; _partial because: "
-        ">= 1 white-space byte after every token that is not self-delimiting (no minimal delimiters), no comments "
-        "between tokens, even hex digit count (open finding), generation 0, no bare top-level reference",
-    "spec reader": "soundness of Spec/Syntax.spellcheck w.r.t. the item grammars is NOT proved; the reader is tied to "
-                   "the speller and to the implementation by the correspondence (spec.spell == expected) only",
+    "C01_int_token / C01_name_token / C01_string_token (+_eof, _buffered)": "proved: every token-level spelling lexes to "
+        "its value from any main-scanner state, at every buffer size",
+    "C01_hex_statement": "full statement; FALSE on the code (C01_hex_statement_fails, C01_odd_hex_cex): odd digit "
+                         "count, open finding odd-hex-digit; C01_hex_token_partial proved for even counts",
+    "C01_nesting": "proved for every clean tree of any depth incl. a bare n g R with any generation (PDFStreamParser: "
+                   "flush holds back two trailing integers, PSEOF hand-out)",
+    "C01_getobj_nesting / C01_getobj_roundtrip_partial": "proved: n g obj <spelled tree> endobj read by the model of "
+        "PDFDocument._getobj_parse + PDFParser.nextobject yields the value (bare reference included), any BUFSIZ, any "
+        "separator in front",
+    "C01_tokens / C01_roundtrip_partial / C01_roundtrip_buffered_partial / C01_offset_partial": "proved END TO END for "
+        "spelled trees (STree) of any depth: every token-level freedom, ANY separator (white space of every kind, "
+        "comments, or nothing where a delimiter follows = minimal delimiters, incl. <</K<41>>>), any generation number, "
+        "bare n g R, any buffer size, any white space/comments in front; _partial only because of the even hex digit "
+        "count (open finding)",
+    "C01_spec_complete": "proved: the executable ISO reader Spec/Syntax.spellcheck accepts every well-formed spelled tree "
+        "(odd hex included) with exactly the values used in the theorems; ESC_STRING / white space / digit tables of "
+        "psparser.py proved equal to the ISO ones on the way",
+    "not proved": "the converse (everything spellcheck accepts is a spelled tree of the family); the stream hand-off of "
+        "PDFParser.do_keyword is modelled (Model/ObjParser.lean) and tied by correspondence only",
 }
 
 
